@@ -1050,3 +1050,41 @@ def write_out_param_reads(fn: ast.FunctionDef) -> ast.FunctionDef:
     fn.body = [W().visit(st) for st in fn.body if not (isinstance(st, ast.Assign) and len(st.targets) == 1
                                                        and isinstance(st.targets[0], ast.Name) and st.targets[0].id in mapping)]
     return fn
+
+
+def truncated_step_counts(idx, res, rule: str, prefixes) -> int:
+    """TRUNC: a number of steps is never the *truncated* float quotient of a time span and dt.  0.7 / 0.1 is 6.999999999999999 and
+    0.3 / 0.1 is 2.9999999999999996: int(), // and floor() lose the last step exactly when the span is a whole number of steps (the
+    pinned code counts with round(), or walks the grid and compares normalised times).  Returns the number of quotients by a dt seen."""
+    n = 0
+
+    def mentions_dt(e) -> bool:
+        for x in ast.walk(e):
+            if isinstance(x, ast.Name) and x.id in ("dt", "DT"):
+                return True
+            if isinstance(x, ast.Attribute) and x.attr == "dt":
+                return True
+            if isinstance(x, ast.Subscript) and isinstance(x.slice, ast.Constant) and x.slice.value == "dt":
+                return True
+        return False
+    for rel in sorted(idx.modules):
+        if not any(rel.startswith(p_) for p_ in prefixes):
+            continue
+        for fi in idx.modules[rel].functions.values():
+            for x in ast.walk(fi.node):
+                quot = None
+                if isinstance(x, ast.Call) and isinstance(x.func, (ast.Name, ast.Attribute)) and call_name(x) in ("int", "floor", "trunc") and len(x.args) == 1:
+                    for b in ast.walk(x.args[0]):
+                        if isinstance(b, ast.BinOp) and isinstance(b.op, ast.Div) and mentions_dt(b.right):
+                            quot = b
+                    if quot is not None and any(isinstance(c, ast.Call) and call_name(c) == "round" for c in ast.walk(x.args[0])):
+                        quot = None
+                elif isinstance(x, ast.BinOp) and isinstance(x.op, ast.FloorDiv) and mentions_dt(x.right):
+                    quot = x
+                if quot is None:
+                    continue
+                n += 1
+                res.find(rule, "%s/%s/truncated-quotient" % (rule, fi.qual), fi.loc(x), fi.qual, ast.unparse(x)[:80],
+                         "%s counts steps as %s: the float quotient of a span and dt lies just below the whole number for many decimal dt "
+                         "(0.7 / 0.1 = 6.999999999999999), so truncating it drops the last step" % (fi.qual, ast.unparse(x)[:60]))
+    return n
